@@ -326,6 +326,8 @@ pub fn gen_c09(rng: &mut Rng, tier: Tier, out: &mut Vec<String>) {
             // degenerate starts
             if i % 3 == 0 { out.push(one(rng, "krylov9", solver, class, n, 2, 1000, tol, 1.0, 1 + (i % 2))); }
             if i % 3 == 1 { out.push(one(rng, "krylov9", solver, class, n, 0, 1000, tol, 0.0, 1 + (i % 2))); }
+            // zero right-hand side with a NON-zero guess: the dense solution is the zero vector, the solver must get there
+            if i % 6 == 4 { out.push(one(rng, "krylov9", solver, class, n, 1, 1000, tol.max(1e-10), 0.0, 1 + (i % 2))); }
         }
     }
 }
